@@ -6,6 +6,7 @@ Environment assumption (DESIGN §6 C09): the funds of a message carry each denom
 Cosmos SDK enforces; with a duplicated denom the contract sees only the first entry.
 -/
 import Halo.Proofs.C14
+import Halo.Proofs.CallSitesC09
 
 namespace Halo.Props.C09W
 open Halo
@@ -30,5 +31,14 @@ theorem mismatch_changes_nothing {name : Asset → String} {w : World} {s p d am
     {b ms to : Option Nat} (hm : Spec.c09 d amt funds = false) :
     step name w (.pair s p funds (.swap (.native d) amt b ms to)) = w :=
   Halo.C14.mismatch_changes_nothing hm
+
+/-- the same for a provision: if either declared asset is native and its declared amount differs from the
+amount of that denom attached to the call, the transaction fails and nothing changes -/
+theorem provide_mismatch_changes_nothing {name : Asset → String} {w : World} {s p : Nat} {funds : List (Nat × Nat)}
+    {as0 as1 : Asset} {am0 am1 : Nat} {tol rcv : Option Nat}
+    (hm : (∃ d, as0 = .native d ∧ Spec.c09 d am0 funds = false) ∨
+          (∃ d, as1 = .native d ∧ Spec.c09 d am1 funds = false)) :
+    step name w (.pair s p funds (.provide as0 am0 as1 am1 tol rcv)) = w :=
+  Halo.CallSites.provide_mismatch_changes_nothing hm
 
 end Halo.Props.C09W
